@@ -22,8 +22,9 @@ type WB struct {
 	Stale []*ecs.CachedFilter // filters that were unregistered (their use is illegal)
 	Rec   *Recorder           // event recorder, nil if no listener is installed
 
-	argIDs   [][]ecs.ID        // argument slices handed to the world during the current op
-	argComps [][]ecs.Component // (scribbled over when the op is finished)
+	builders map[string]*ecs.Builder // long-lived builders, by component list and relation
+	argIDs   [][]ecs.ID              // argument slices handed to the world during the current op
+	argComps [][]ecs.Component       // (scribbled over when the op is finished)
 
 	ResIDs [NumRes]ecs.ResID
 	ResPtr [NumRes]any // the pointer handed to Resources.Add
